@@ -64,6 +64,34 @@ def adj_inv(a):
     return A.wrap(out)
 
 
+def exact_cholesky(a):
+    """np.linalg.cholesky on symbolic entries, computed exactly by the Cholesky-Banachiewicz recursion (works for SC and Dual
+    scalars; batched); side conditions: the pivots are positive (A positive definite)"""
+    p = A.plain(a) if isinstance(a, A.SymArray) else np.asarray(a, dtype=object)
+    if p.ndim == 3:
+        return A.wrap(np.stack([A.plain(exact_cholesky(x)) for x in p]))
+    n = p.shape[0]
+    if n > 3:
+        raise S.EngineError('np.linalg.cholesky stub: only up to 3x3')
+    Z = S.Dual(SC(ir.ZERO)) if any(isinstance(e, S.Dual) for e in p.reshape(-1)) else SC(ir.ZERO)
+    L = np.empty((n, n), dtype=object)
+    L[:, :] = Z
+    lift = (lambda e: e if isinstance(e, S.Dual) else S.Dual(S.as_sc(e))) if isinstance(Z, S.Dual) else S.as_sc
+    for i in range(n):
+        for j in range(i + 1):
+            acc = lift(p[i, j])
+            for k in range(j):
+                acc = acc - L[i, k] * L[j, k].conjugate()
+            if i == j:
+                d = acc.real
+                v = d.v if isinstance(d, S.Dual) else d
+                S.ctx().side.append(('cholesky', ir.rcmp('lt', ir.ZERO, v.re)))
+                L[i, j] = d.sqrt()
+            else:
+                L[i, j] = acc / L[j, j]
+    return A.wrap(L)
+
+
 def det_small(p):
     p = A.plain(p)
     n = p.shape[0]
@@ -82,7 +110,11 @@ def np_fac():
         if isinstance(a, A.SymArray) and not A.is_all_const(a):
             return adj_inv(a)
         return np.linalg.inv(A.to_concrete(a) if isinstance(a, A.SymArray) else a)
-    return facade.make_np_facade(linalg={'inv': inv})
+    def chol(a):
+        if isinstance(a, A.SymArray) and not A.is_all_const(a):
+            return exact_cholesky(a)
+        return np.linalg.cholesky(A.to_concrete(a) if isinstance(a, A.SymArray) else a)
+    return facade.make_np_facade(linalg={'inv': inv, 'cholesky': chol})
 
 
 def extra_globals():
@@ -158,6 +190,7 @@ FUNCS = {
     'to_symmetric_matrix': lambda th, **k: M.to_symmetric_matrix(th, k['dim'], is_trace0=k['trace0'], is_norm1=k['norm1']),
     'to_trace1_psd_cholesky': lambda th, **k: M.to_trace1_psd_cholesky(th, k['dim'], k['rank']),
     'to_stiefel_euler': lambda th, **k: M.to_stiefel_euler(th, k['dim'], k['rank'], with_phase=k.get('with_phase', False)),
+    'to_stiefel_choleskyL': lambda th, **k: M.to_stiefel_choleskyL(th, k['dim'], k['rank']),
     'to_special_orthogonal_cayley': lambda th, **k: M.to_special_orthogonal_cayley(th, k['dim'], order=k.get('order', 2)),
     'to_open_interval': lambda th, **k: M.to_open_interval(th, k['lower'], k['upper']),
     'to_positive_real_softplus': lambda th, **k: M.to_positive_real_softplus(th),
@@ -201,11 +234,11 @@ def run(chk):
     rng = random.Random(chk.seed)
     chk.fn(*['numqi.manifold.' + k for k in FUNCS])
     chk.register_replayer('c01', replay)
-    chk.out_of_claim('every PyTorch branch and all nn.Module wrappers (torch tensors cannot carry symbolic elements); float32; softmax, exp (expm), QR, polar (eigh), Cholesky-L '
-                     '(LAPACK), symmetric_matrix_to_trace1PSD, SeparableDensityMatrix, QuantumChannel, _ABk modules; to_trace1_psd_ensemble (softmax)')
+    chk.out_of_claim('every PyTorch branch and all nn.Module wrappers (torch tensors cannot carry symbolic elements); float32; softmax, exp (expm), QR, polar (eigh), '
+                     'symmetric_matrix_to_trace1PSD, SeparableDensityMatrix, QuantumChannel, _ABk modules; to_trace1_psd_ensemble (softmax)')
     chk.bound(dims='2..4 (Euler: (3,2),(4,2),(4,3),(2,2),(3,3) quick; + (5,2),(5,3),(4,4) thorough)', theta='unbounded exact reals (conditioning bound irrelevant in the exact model)',
               batch='(2,n) equals per-sample calls for every map')
-    chk.stub('scipy.special.expit -> fresh v in (0,1); np.linalg.inv -> exact adjugate inverse (dim<=3, side condition det != 0)')
+    chk.stub('scipy.special.expit -> fresh v in (0,1); np.linalg.inv -> exact adjugate inverse (dim<=3, side condition det != 0); np.linalg.cholesky -> exact Cholesky-Banachiewicz recursion (dim<=3, side condition: positive pivots)')
     fac = np_fac()
     eg = extra_globals()
 
@@ -227,7 +260,7 @@ def run(chk):
                 chk.notes_from(path)
         return ok
 
-    def side_of(path, kinds=('div', 'sqrt', 'log', 'log1p')):
+    def side_of(path, kinds=('div', 'sqrt', 'log', 'log1p', 'cholesky')):
         return [c for k, c in path.side if k in kinds]
 
     def batch_check(fn_name, n, kw, kind):
@@ -367,6 +400,31 @@ def run(chk):
                             key=f'to_stiefel_euler not isometric {kw_key(kw)}', replay=rp)
             if (d, r) in ((3, 2), (2, 1)):
                 batch_check('to_stiefel_euler', npar, kw, 'stiefel')
+    # ---- Cholesky-L chart (np.linalg.cholesky / inv computed exactly for sizes <= 3)
+    for d, r in ((2, 1), (2, 2), (3, 2)) if quick else ((2, 1), (2, 2), (3, 2), (3, 3), (4, 2)):
+        N0 = (r * (r + 1)) // 2
+        for is_real in (True, False):
+            npar = d * r - N0 if is_real else 2 * d * r - 2 * N0
+            if npar == 0:
+                continue
+            if not is_real and (d, r) == (3, 3):
+                continue
+            th = H.re_array(f'l{npar}_', npar)
+            kw = {'dim': d, 'rank': r}
+            try:
+                paths = explore('to_stiefel_choleskyL', th, kw)
+            except S.EngineError as e:
+                chk.engine_error(f'to_stiefel_choleskyL {kw} real={is_real}', e)
+                continue
+            for pi, path in handle_raises(paths, 'to_stiefel_choleskyL', 'stiefel', kw, th, []):
+                X = path.value
+                rp = ('c01', lambda m, th=th, kw=kw: theta_payload(m, th, 'to_stiefel_choleskyL', 'stiefel', kw))
+                if tuple(X.shape) != (d, r):
+                    chk.add(f'to_stiefel_choleskyL {kw}: output shape', [], ir.FALSE, key=f'to_stiefel_choleskyL shape {kw_key(kw)}', replay=rp)
+                    continue
+                for (i, j), cl in gram_is_identity(X):
+                    chk.add(f'to_stiefel_choleskyL d={d} r={r} real={is_real}: (X^dag X)[{i},{j}] == delta', path.pc + path.facts + side_of(path), cl,
+                            key=f'to_stiefel_choleskyL not isometric {kw_key(kw)} real={is_real}', replay=rp)
     # ---- Cayley chart
     for d in (2, 3):
         for is_real in (True, False):
